@@ -139,6 +139,28 @@ fn writers<T: Serialize + ?Sized>(ctx: &mut Ctx, what: &str, x: &T, model: Resul
             Err(_) => differ("to_writer_pretty(io::BufWriter<Vec>)", b"<into_inner failed>", &pretty),
         }
     }
+    // a sink that accepts only a few bytes per write call (a socket-like short-writing sink):
+    // nothing may be lost, through BufferedWriter and through io::BufWriter
+    for chunk in [1usize, 3, 7] {
+        let rec = Rc::new(RefCell::new(Vec::new()));
+        {
+            let mut bw = BufferedWriter::new(FailAfter { got: rec.clone(), limit: usize::MAX, chunk });
+            let r = sonic_rs::to_writer(&mut bw, x);
+            let f = bw.flush();
+            if r.is_err() || f.is_err() {
+                differ("to_writer(BufferedWriter<short-writing sink>) reported an error", b"<error>", &out);
+            }
+        }
+        differ("to_writer(BufferedWriter<short-writing sink>)", &rec.borrow(), &out);
+        let rec = Rc::new(RefCell::new(Vec::new()));
+        {
+            let mut iw = io::BufWriter::with_capacity(5, BufferedWriter::new(FailAfter { got: rec.clone(), limit: usize::MAX, chunk }));
+            let _ = sonic_rs::to_writer_pretty(&mut iw, x);
+            let _ = iw.flush();
+            let _ = iw.get_mut().flush();
+        }
+        differ("to_writer_pretty(io::BufWriter<short-writing sink>)", &rec.borrow(), &pretty);
+    }
     {
         let mut bx: Box<Vec<u8>> = Box::new(Vec::new());
         let _ = sonic_rs::to_writer(&mut bx, x);
